@@ -130,7 +130,9 @@ pub fn check(cx: &Cx, rep: &mut Report) {
                 TL::Inv(j) => ix.invs[*j].out.map(|o| o.1 == ix.invs[*j].it).unwrap_or(false),
                 TL::Cb(j) => ix.cbs[*j].o.map(|o| o.1 == ix.cbs[*j].it).unwrap_or(false),
             });
-        if idle {
+        // (a parked send future keeps the mailbox open after the last handle proper is gone, but timers cannot be
+        // upgraded through it: "alive" and "reachable by its timers" then differ, and the exact schedule is not defined)
+        if idle && !af.parked {
             // the actor is alive (accepting) strictly before t_end
             let t_end = af.t_final().map(|t| ix.ev[t.0 as usize].vt).unwrap_or(last_vt);
             rep.premise("C10.R2.exact_schedule");
